@@ -781,6 +781,27 @@ def gen_subshape(draw):
     return ['plain']
 
 
+# stages of an Iter that evaluate a spec per item, lazily (while whoever consumes the stream runs): Iter(sub) itself and
+LAZY_STAGES = ('map', 'filter', 'unique', 'takewhile', 'dropwhile')
+# ... of which these only look at the truth / the identity of what their spec returns (the items flow on unchanged)
+KEYED_STAGES = ('filter', 'unique', 'takewhile', 'dropwhile')
+# what a spec that PASSES on every item returns: the item (a Named without items: falsy, distinct per item), its name (truthy,
+# distinct), True, None.  TRANSPARENT: the values with which a stage of that kind lets every item through unchanged
+PASS_VALUES = {'map': ['item'], 'filter': ['item', 'name', 'true', 'none'], 'unique': ['item', 'name', 'true', 'none'],
+               'takewhile': ['item', 'name', 'true', 'none'], 'dropwhile': ['item', 'name', 'true', 'none']}
+TRANSPARENT = {'map': ['item'], 'filter': ['name', 'true'], 'unique': ['item', 'name'], 'takewhile': ['name', 'true'],
+               'dropwhile': ['item', 'none']}
+
+
+def gen_pass(draw, kind, transparent):
+    """[stage kind, shape of its spec, value]: a spec that completes on every item.  Shapes: a callable, a chain that ends
+    in one, a Coalesce whose first alternative fails and is recovered from, a T attribute access, a string path"""
+    S_ = st.sampled_from
+    val = draw(S_((TRANSPARENT if transparent else PASS_VALUES)[kind]))
+    shape = draw(S_(['call', 'chain', 'coalesce'] + (['tattr', 'tattr', 'path', 'path'] if val in ('name', 'none') else [])))
+    return [kind, shape, val]
+
+
 def gen_lazy(draw):
     S_ = st.sampled_from
     # 'after': every item passes; a step AFTER the consumer fails (the chain must have continued from the consumer)
@@ -791,7 +812,9 @@ def gen_lazy(draw):
          'fail': draw(S_(['path', 'tstep', 'glomerror', 'valueerror'])), 'failat': draw(S_([0, 0, 1])),
          # '-windowed': windowed(n) pulls its first n - 1 items INSIDE the Iter's own evaluation: a failure on one of them is
          # raised eagerly, by the Iter step itself
-         'how': draw(S_(['iter', 'iter', 'map', 'filter'] + ([] if mode == 'recovered' else ['iter-windowed', 'iter-windowed', 'map-windowed']))),
+         # every stage that evaluates a spec per item: Iter(sub), map, filter, unique(key), takewhile(key), dropwhile(key)
+         'how': draw(S_(['iter', 'iter', 'map', 'map', 'filter', 'unique', 'unique', 'takewhile', 'dropwhile'] +
+                        ([] if mode == 'recovered' else ['iter-windowed'] * 4 + ['map-windowed'] * 3))),
          'chain': draw(S_(['tuple', 'tuple', 'pipe'])),
          'wrap': draw(S_(['none', 'none', 'spec', 'auto', 'coalesce', 'dict', 'nested-chain'])),
          'mode': mode, 'sub': gen_subshape(draw)}
@@ -799,13 +822,21 @@ def gen_lazy(draw):
         r['win'] = draw(S_([2, 2, 3]))
     if mode == 'recovered':
         r['rec'] = 'coalesce-skipexc' if r['fail'] == 'valueerror' else draw(S_(['or', 'coalesce-default', 'coalesce-alt', 'and-not']))
+    if r['how'] in KEYED_STAGES:
+        # what the sub-spec returns for the items it passes: the item (falsy) or True.  takewhile / dropwhile reach the second
+        # item only after a truthy key for the first
+        r['passval'] = 'true' if r['how'] in ('takewhile', 'dropwhile') and mode != 'after' else draw(S_(['item', 'true']))
+    if not r['how'].endswith('windowed') and draw(S_([0, 1, 1] if mode == 'after' else [0, 1])):
+        # a SECOND lazily evaluating stage in the same Iter, before or after the first, whose spec completes on every item
+        # (in the modes in which the sub-spec has to fail on a given item: with a value that lets every item through)
+        r['also'] = gen_pass(draw, draw(S_(LAZY_STAGES)), mode != 'after') + [draw(S_(['before', 'after']))]
     return r
 
 
 class FailAt(object):
     """sub-spec of the Iter: passes the items before position `at`, fails (in the planted way) on that one"""
-    def __init__(self, kind, at, tag=''):
-        self.kind, self.at, self.tag = kind, at, tag
+    def __init__(self, kind, at, tag='', passval='item'):
+        self.kind, self.at, self.tag, self.passval = kind, at, tag, passval
         self.__name__ = 'failat'
         self.raised = None
 
@@ -819,7 +850,7 @@ class FailAt(object):
 
     def glomit(self, target, scope):
         if self.at < 0 or not target.name.endswith('_' + 'ab'[self.at]):
-            return target
+            return True if self.passval == 'true' else target
         try:
             if self.inner() is not None:
                 return scope[glom.glom](target, self.inner(), scope)
@@ -831,15 +862,47 @@ class FailAt(object):
             raise
 
     def __repr__(self):
-        return 'FailAt(%r, %d%s)' % (self.kind, self.at, ', %r' % self.tag if self.tag else '')
+        return 'FailAt(%r, %d%s%s)' % (self.kind, self.at, ', %r' % self.tag if self.tag else '',
+                                       ', passval=%r' % self.passval if self.passval != 'item' else '')
+
+
+class PassStep(object):
+    """a spec that completes on every item of the stream, with a unique, address-free repr"""
+    def __init__(self, n, val):
+        self.n, self.val = n, val
+        self.__name__ = 'pass%d' % n
+
+    def __call__(self, t):
+        if self.val == 'item':
+            return t
+        if self.val == 'name':
+            return t.name
+        return True if self.val == 'true' else None
+
+    def __repr__(self):
+        return 'pass%d_%s' % (self.n, self.val)
+
+
+def build_pass(shape, val, n):
+    if shape == 'tattr':
+        return T.name if val == 'name' else T.items          # (the items of the stream are Named without items: None)
+    if shape == 'path':
+        return 'name' if val == 'name' else 'items'
+    p = PassStep(n, val)
+    if shape == 'chain':
+        return (OkStep(n + 1), p)
+    if shape == 'coalesce':
+        return Coalesce('missing_pass%d' % n, p)
+    return p
 
 
 def build_sub(r, at):
     """(sub-spec, its failing alternatives or None)"""
     shape = r.get('sub') or ['plain']
+    pv = r.get('passval', 'item')
     if shape[0] == 'plain':
-        return FailAt(r['fail'], at), None
-    alts = [FailAt(k, at, '_' + 'xyz'[i]) for i, k in enumerate(list(shape[1]) + [r['fail']])]
+        return FailAt(r['fail'], at, passval=pv), None
+    alts = [FailAt(k, at, '_' + 'xyz'[i], pv) for i, k in enumerate(list(shape[1]) + [r['fail']])]
     return Coalesce(*alts), alts
 
 
@@ -872,8 +935,19 @@ def build_lazy(r):
     mode = r.get('mode', 'lazy')
     b.sub, b.alts = build_sub(r, -1 if mode == 'after' else r['failat'])
     sub, how, n = b.sub, r['how'], r.get('win', 2)
-    b.it = {'iter': lambda: Iter(sub), 'map': lambda: Iter().map(sub), 'filter': lambda: Iter().filter(sub),
-            'iter-windowed': lambda: Iter(sub).windowed(n), 'map-windowed': lambda: Iter().map(sub).windowed(n)}[how]()
+    # Iter(sub) / Iter().<stage>(sub), a second stage with a passing spec before or after it, .windowed(n) last
+    b.stages = [] if how.startswith('iter') else [(how.split('-')[0], sub)]
+    also = r.get('also')
+    if also:
+        b.stages.insert(0 if also[3] == 'before' else len(b.stages), (also[0], build_pass(also[1], also[2], 60)))
+    b.it = Iter(sub) if how.startswith('iter') else Iter()
+    for kind_, spec_ in b.stages:
+        if kind_ not in LAZY_STAGES:
+            raise HarnessBug('unknown stage %r' % (kind_,))
+        b.it = getattr(b.it, kind_)(spec_)
+    if how.endswith('windowed'):
+        b.it = b.it.windowed(n)
+    b.kinds = sorted(set((['iter'] if how.startswith('iter') else []) + [k_ for k_, _ in b.stages]))
     # a failure on one of the first n - 1 items is raised while the Iter step itself is evaluated
     b.eager = mode == 'lazy' and how.endswith('windowed') and r['failat'] < n - 1
     b.cons = Consumer(20)
@@ -1050,6 +1124,12 @@ def check_lazy(recipe, ctx):
             ctx.label('recovered-lazy-failure', 'rec-' + recipe['rec'])
         else:
             ctx.label('fails-after-consumer')
+            # one class per kind of lazily evaluating stage: its spec ran on the items while the consumer ran, completed, and
+            # has no part in the failure of the later step
+            ctx.label(*['after-consumer:' + k_ for k_ in b.kinds])
+        ctx.label(*['stage-' + k_ for k_ in b.kinds])
+        if recipe.get('also'):
+            ctx.label('two-lazy-stages', 'second-stage-spec-' + recipe['also'][1])
         ctx.label('lazy-' + recipe['how'])
         if recipe['mid']:
             ctx.label('steps-between')
@@ -1107,6 +1187,10 @@ def check_lazy(recipe, ctx):
         if not b.eager:
             ctx.label('lazy-branch-ends-in-nested-branch')
     check_final_error(tail, wrapped, where, show)
+    ctx.label(*['stage-' + k_ for k_ in b.kinds])
+    ctx.label(*['fails-in-stage:' + k_ for k_ in ([recipe['how']] if recipe['how'] in KEYED_STAGES else [])])
+    if recipe.get('also'):
+        ctx.label('two-lazy-stages', 'second-stage-spec-' + recipe['also'][1])
     ctx.label('lazy-' + recipe['how'])
     ctx.label('wrap-' + recipe['wrap'])
     if recipe['mid']:
@@ -1304,8 +1388,12 @@ CLASSIFIERS = {'F36-call-args-lazy': is_call_args_lazy}
 SUBS = [
     Sub('trace', check, gen=gen, quick=3000, thorough=10000,
         floors={'branch-point': 0.1, 'recovered-branch': 0.1, 'depth-3': 0.05, 'linear-exact': 0.1, 'target-contains-itself': 0.01, 'exception-with-own-str': 0.03, 'fails-in-argument-position': 0.02}),
-    Sub('lazy', check_lazy, gen=gen_lazy, quick=1200, thorough=3000, floors={'steps-between': 0.2, 'lazy-map': 0.05, 'fails-after-consumer': 0.12, 'recovered-lazy-failure': 0.12, 'windowed-eager': 0.07,
-                'lazy-map-windowed': 0.04, 'branching-sub': 0.09, 'lazy-branch-ends-in-nested-branch': 0.06, 'one-line-closed-branch': 0.01}),
+    Sub('lazy', check_lazy, gen=gen_lazy, quick=1600, thorough=3000, floors={'steps-between': 0.2, 'lazy-map': 0.05, 'fails-after-consumer': 0.12, 'recovered-lazy-failure': 0.12, 'windowed-eager': 0.07,
+                'lazy-map-windowed': 0.04, 'branching-sub': 0.09, 'lazy-branch-ends-in-nested-branch': 0.06, 'one-line-closed-branch': 0.01,
+                # a step after the consumer fails, per kind of stage whose spec ran (and completed) on the items while the consumer ran
+                'after-consumer:iter': 0.05, 'after-consumer:map': 0.045, 'after-consumer:filter': 0.013, 'after-consumer:unique': 0.02,
+                'after-consumer:takewhile': 0.015, 'after-consumer:dropwhile': 0.013, 'two-lazy-stages': 0.15,
+                'fails-in-stage:filter': 0.01, 'fails-in-stage:unique': 0.025, 'fails-in-stage:takewhile': 0.008, 'fails-in-stage:dropwhile': 0.011}),
     Sub('matchalts', check_matchalts, gen=gen_matchalts, quick=300, thorough=1000),
     Sub('enclosed', check_enclosed, gen=gen_enclosed, quick=600, thorough=1500,
         floors={'first-key-fails': 0.2, 'first-key-composite': 0.12, 'enclose-dict-windowed': 0.1, 'branching-sub': 0.15}),
